@@ -46,3 +46,24 @@ Theorem C01_source_decode_consults :
   V2.parseHeaders_consults = ["go_decodeString"; "go_json_Unmarshal_Header"]%list.
 Proof. repeat split; reflexivity. Qed.
 Print Assumptions C01_source_decode_consults.
+
+(* jwt.DecodeGeneric itself (v2/genericlaims.go): accepts exactly the tokens the model's [decode_generic] accepts - three
+   segments, a valid header, a payload that unmarshals, a signature that the payload's issuer made over the text of the
+   layout the HEADER'S ALGORITHM names (the translated ClaimsData.verify, the nkeys functions instantiated so that it
+   answers the model's [verify]) - and hands back the payload as unmarshalled, with, in the version-1 layout only, a data
+   map made if there was none and the top-level kind and tags re-homed into it when there are any (the stores into the
+   function's own struct are recorded in the value: [generic_result]). *)
+Theorem C01_source_decode_generic : forall b64dec parse_header issuer_of gunm_ok verify g_data_nil g_type g_tags (tok : string),
+  match decode_generic b64dec parse_header issuer_of gunm_ok verify tok with
+  | Some a => exists d, src_decode_generic b64dec parse_header issuer_of gunm_ok verify g_data_nil g_type g_tags tok
+                          = (generic_result g_data_nil g_type g_tags (a_layout a) d, None)
+                        /\ issuer_of d = a_iss a /\ a_kind a = KGeneric
+  | None => snd (src_decode_generic b64dec parse_header issuer_of gunm_ok verify g_data_nil g_type g_tags tok) <> None
+  end.
+Proof. exact src_decode_generic_spec. Qed.
+Print Assumptions C01_source_decode_generic.
+Theorem C01_source_decode_generic_consults :
+  V2.DecodeGeneric_consults = ["go_decodeString"; "go_json_Unmarshal_Header"; "go_json_Unmarshal_structGenericClaims_GenericFields";
+    "go_nkeys_Decode"; "go_nkeys_FromPublicKey"; "go_nkeys_Prefix"]%list.
+Proof. reflexivity. Qed.
+Print Assumptions C01_source_decode_generic_consults.
